@@ -394,7 +394,14 @@ def process_node_fields(
             # Possible child field
             res = is_valid_child_field_type(ftype, node_base_type)
             if res == InvalidTypeReason.OK:
-                child_fields[f] = get_type_info(ftype)
+                info = get_type_info(ftype)
+
+                if info.is_collection and get_origin(ftype) is None:
+                    # A node class that is itself a collection (defines __len__,
+                    # __iter__ and __contains__) is a single child, not a sequence
+                    info = FieldTypeInfo(False, ftype)
+
+                child_fields[f] = info
             else:
                 incorrect_fields.append((f.name, res.value, ftype))
         else:
